@@ -4,6 +4,7 @@
   tools/seeded.py eval <name> [--runs N]          apply to /repo, run the property's quick check, undo; record in meta.json
 """
 import json, os, shutil, subprocess, sys, time
+os.environ["VERIF_SCRATCH_EVIDENCE"] = "1"  # sensitivity runs never touch the committed evidence files
 VERIF = os.path.dirname(os.path.dirname(os.path.abspath(__file__)))
 
 def sh(cmd, cwd=None, env=None, timeout=1800):
